@@ -30,6 +30,7 @@ RULE = (
     "diagnostics' within len(D(P)) + 2 steps without revisiting a text; (5) removing any one added comment "
     "re-exposes exactly the diagnostics of one line. Non-trivial = history with >=2 steps or a diagnostic on line "
     "1 / two codes on one line / inside a multi-line statement (distinct by program)."
+    ' Generated programs also hold decorated defs (a wrapping decorator makes double application visible), fixable comprehensions in default values and over iterables of known members in local assignments, and multi-line statements whose last line is flush with the first.'
 )
 ASSUMPTIONS = [
     "fixes are applied in-process through check_for_test(apply_changes=True), which shares _apply_changes_to_lines with the CLI",
